@@ -7,6 +7,8 @@ import os
 import vlib
 import syslib
 import looplib
+import srvlib
+import fwdlib
 
 
 def oracle(hist, gen, out):
@@ -56,8 +58,10 @@ def loop_integrity(rep, ctx):
 
 
 def check(rep):
-    ctx = vlib.prepare(rep, harnesses={'sys': syslib.SYS, 'sysreal': syslib.SYS_REAL, 'loopsim': looplib.LOOPSIM}, sanitize=False, model='SYS')
+    ctx = vlib.prepare(rep, harnesses={'sys': syslib.SYS, 'sysreal': syslib.SYS_REAL, 'loopsim': looplib.LOOPSIM, 'srv': srvlib.SRV},
+                       sanitize=False, model='SYS')
     loop_integrity(rep, ctx)
+    fwdlib.stage(rep, ctx)
     nh, ne = (240, 160) if rep.tier == 'quick' else (3000, 250)
     corpus = []
     cp = os.path.join(vlib.VERIF, 'corpus', 'C01')
@@ -72,6 +76,9 @@ def check(rep):
                        'schedule of client/server loop iterations: tun packets on both sides, delivery in or out of order, duplication, drop, relay '
                        're-sends with rewritten DNS id and randomised letter case, time-outs, clock ticks (incl. >60 s); plus fault-prefix/clean-suffix '
                        'schedules. distinct = distinct schedules; non-trivial = schedules in which at least one packet reached a tun device')
+    rep.cov['rule'] += ('. Forwarding stage (checks/fwdlib.py): 2-3 scripted sessions on the real server, frames for one recipient from the '
+                        'server tun and from the other sessions\' upstream while its downstream is busy (out-queue), the recipient fetching '
+                        'fragment by fragment: every stream it reassembles is the framing of one offered frame; then model == implementation')
     rep.cov['input_distribution'] = stats
     rep.cov['evaluations'] = rep.cov.get('evaluations', 0) + sum(h.count(' ; ') for h in allh)
     env = {'VERIF_FULL': '1'}
